@@ -406,12 +406,43 @@ func c08Match(c *Ctx) {
 				// that the error is nil, that the answer is false, or that a non-nil error
 				// implies a false answer
 				rf := p.Facts().Analyze(f)
-				if st, _ := rf.At(ret); st != nil {
-					at, bt := rf.term(a), rf.term(b)
-					if at != nil && bt != nil {
-						noMatch := mkFact(false, "true", at, nil)
-						isErr := mkFact(false, "eq", bt, TNil())
+				if at, bt := rf.term(a), rf.term(b); at != nil && bt != nil {
+					noMatch := mkFact(false, "true", at, nil)
+					isErr := mkFact(false, "eq", bt, TNil())
+					okState := func(st *State) bool {
+						if st == nil {
+							return false
+						}
 						if st.HasFact(complement(isErr)) || st.HasFact(noMatch) || st.Has(mkImp(isErr, noMatch).key) {
+							return true
+						}
+						// a match implies that the error is nil (ok := err == nil; return ok, err)
+						for _, g := range st.Facts() {
+							if g.Op == "imp" && g.Cond != nil && g.Then != nil && g.Cond.key == complement(noMatch).key &&
+								g.Then.Op == "eq" && g.Then.Pos && g.Then.B != nil {
+								for _, pr := range [][2]*Term{{g.Then.A, g.Then.B}, {g.Then.B, g.Then.A}} {
+									if pr[0].K == 'n' && st.EqualUnder(pr[1], bt) {
+										return true
+									}
+								}
+							}
+						}
+						return false
+					}
+					st, _ := rf.At(ret)
+					if okState(st) {
+						return true
+					}
+					// way by way into the return
+					for _, d := range []int{2, 4} {
+						states := rf.AtSplit(ret, d)
+						all := len(states) > 0
+						for _, s2 := range states {
+							if !okState(s2) {
+								all = false
+							}
+						}
+						if all {
 							return true
 						}
 					}
